@@ -2,6 +2,7 @@ import GitAiModel.Driver.Json
 import GitAiModel.Model.Wrapper
 import GitAiModel.Model.Journal
 import GitAiModel.Extracted.WrapperTables
+import GitAiModel.Extracted.WrapperExitTables
 namespace GitAi.Driver.WrapperD
 open Lean GitAi GitAi.Driver GitAi.Wrapper
 
@@ -27,8 +28,71 @@ def kindName : Kind → String
   | .gitRan => "gitRan" | .refused => "refused" | .crashed => "crashed"
   | .killedBeforeGit => "killedBeforeGit" | .killedAfterGit => "killedAfterGit"
 
+def procEndJson : Exit.ProcEnd → Json
+  | .exited c => jObj [("end", Json.str "exited"), ("value", jNat c)]
+  | .signaled s => jObj [("end", Json.str "signaled"), ("value", jNat s)]
+
+def atomName : Exit.Atom → String
+  | .skipAll => "skipAll" | .skipManaged => "skipManaged" | .fwdExists => "fwdExists"
+  | .noManagedBehavior => "noManagedBehavior" | .requiresLookup => "requiresLookup" | .usesManaged => "usesManaged"
+  | .hasState => "hasState" | .explicitOverride => "explicitOverride"
+
+def conjJson (c : Exit.Conj) : Json := jArr (c.map fun l => jArr [Json.str (atomName l.1), Json.bool l.2])
+
+def resetJson : Exit.Reset → Json
+  | .dying => Json.str "dying"
+  | .fixed l => jArr (l.map jNat)
+
+def dirName : Exit.Dir → String
+  | .user => "user" | .managed => "managed" | .null => "null"
+
 def handle (op : String) (j : Json) : Option (Except String Json) :=
   match op with
+  /- `exit_with_status` on a child status, over the extracted statements; `ignored` = dispositions inherited as SIG_IGN -/
+  | "wrap_exit" => some do
+      let kind ← (← j.getObjVal? "kind").getStr?
+      let v ← getNatField j "value"
+      let setpgid ← getBoolField j "setpgid"
+      let ign ← (← getArrField j "ignored").toList.mapM (fun x => x.getNat?)
+      let inh : Exit.Disps := fun s => if ign.contains s then .ign else .dfl
+      let st : Exit.ChildStatus := if kind == "signaled" then .signaled v else .exited v
+      let spec := WrapperExitTables.exitSpec
+      pure (jObj [("proxy", procEndJson (Exit.exitWithStatus spec st (Exit.atExit spec inh setpgid))),
+                  ("can_kill", Json.bool (kind == "signaled" && Exit.canKill v))])
+  /- one hook event of a command started by the wrapper, over the extracted decision tables -/
+  | "wrap_userhook" => some do
+      let cmd ← getStrField j "cmd"
+      let loc ← (← j.getObjVal? "loc").getStr?
+      let ai ← getBoolField j "ensured"
+      let em ← getBoolField j "ev_managed"
+      let user ← (← j.getObjVal? "user").getStr?
+      let ex ← getBoolField j "explicit"
+      let loc' : Exit.UserLoc ← match loc with
+        | "default" => pure .defaultDir | "local" => pure .localPath | "global" => pure .globalPath
+        | _ => throw s!"unknown loc {loc}"
+      let user' : Exit.UserHook ← match user with
+        | "none" => pure .none | "ok" => pure .ok | "veto" => pure .veto
+        | _ => throw s!"unknown user hook {user}"
+      let s : Exit.Scn := ⟨WrapperTables.managedCommands.contains cmd, loc', if ai then .ensured else .absent, em, user', ex⟩
+      let f := Exit.viaProxy WrapperExitTables.hookEntry WrapperExitTables.override s false false
+      let p := Exit.plain s
+      pure (jObj [("uses_managed", Json.bool s.usesManaged), ("dir", Json.str (dirName (Exit.effectiveDir WrapperExitTables.override s false))),
+                  ("runs", jNat f.runs), ("veto", Json.bool f.veto), ("plain_runs", jNat p.runs), ("plain_veto", Json.bool p.veto),
+                  ("dead_default_dir", Json.bool s.deadDefaultDir)])
+  /- the exit / user-hook tables the proofs were checked against (the check compares with what it extracted) -/
+  | "wrap_exit_tables" => some do
+      let e := WrapperExitTables.exitSpec
+      let h := WrapperExitTables.hookEntry
+      let o := WrapperExitTables.override
+      pure (jObj [("resets", jArr (e.resets.map resetJson)), ("raises", Json.bool e.raisesDying), ("unreachable", Json.bool e.thenUnreachable),
+                  ("else_exits_code", Json.bool e.elseExitsCode), ("forwarded", jArr (e.forwarded.map jNat)),
+                  ("uninstalled", jArr (e.uninstalled.map jNat)), ("other_signal_sites", jNat e.otherSignalSites),
+                  ("early_returns", jArr (h.earlyReturns.map conjJson)), ("managed_guard", conjJson h.managedGuard),
+                  ("managed_failure_returns", Json.bool h.managedFailureReturns), ("tail_forwards", Json.bool h.tailForwards),
+                  ("none_when", jArr (o.noneWhen.map conjJson)), ("fallback_null", Json.bool o.fallbackNull),
+                  ("same_forward_resolver", Json.bool o.sameForwardResolver), ("inject_when", conjJson o.injectWhen),
+                  ("child_skip_env", Json.bool o.childSkipEnv),
+                  ("user_hooks_ok", Json.bool (Exit.userHooksOk h o))])
   /- footprint / hooks of a concrete internal argv (as traced by GIT_AI_VERIF_TRACE) -/
   | "wrap_classify" => some do
       let argv ← strsOf j "argv"
